@@ -410,6 +410,8 @@ func (store *KeyStore) WriteKeyFile(filename string, data []byte, mode os.FileMo
 	if err != nil {
 		return err
 	}
+	// the previous version has just been moved into the history directory
+	store.purgeCachedHistoricalFilenames(filename)
 	return nil
 }
 
@@ -460,6 +462,13 @@ func (store *KeyStore) getCachedHistoricalPrivateKeyFilenames(id string) ([]stri
 		return nil, err
 	}
 	return paths.Paths, nil
+}
+
+// purgeCachedHistoricalFilenames drops cached list of current and rotated file names of the key file
+// at given path. It must be called whenever the key file is rotated or its rotated versions are removed,
+// otherwise rotated keys are not offered for decryption until the cache is reset.
+func (store *KeyStore) purgeCachedHistoricalFilenames(path string) {
+	store.cache.Add(cacheKeyPrefix+filepath.Clean(path), nil)
 }
 
 func (store *KeyStore) cacheHistoricalPrivateKeyFilenames(id string, paths []string) error {
@@ -1022,7 +1031,7 @@ func (store *KeyStore) destroyKeyWithFilename(filename string) error {
 // destroySymmetricKeyWithFilename removes symmetric key with given filename.
 func (store *KeyStore) destroySymmetricKeyWithFilename(filename string) error {
 	// Purge key data from cache too.
-	store.cache.Add(filename, nil)
+	store.cache.Add(getSymmetricKeyName(filename), nil)
 
 	// Remove key files. It's okay if they are already removed (or never existed).
 	// Keystore v1 does not differentiate between 'destroying' and 'removing' keys
@@ -1339,6 +1348,7 @@ func (store *KeyStore) destroyRotatedKeyByIndex(path string, index int) error {
 	if err != nil && !os.IsNotExist(err) {
 		return err
 	}
+	store.purgeCachedHistoricalFilenames(path)
 
 	return nil
 }
